@@ -18,13 +18,26 @@
 (* Part "meta".  The decision table of checkEndpointLocation (metadata.go) *)
 (* as applied by Endpoint.UnmarshalXML and IndexedEndpoint.UnmarshalXML to *)
 (* Location and ResponseLocation, over every endpoint-bearing element of   *)
-(* every descriptor type x binding x scheme class.                         *)
+(* every descriptor type x binding x location class.  A location class is  *)
+(* a pair (scheme class, shape): the scheme class says how the value       *)
+(* begins (http, https, mixed case, script schemes, blanks, no scheme),     *)
+(* the shape - for the http-ish scheme classes - what follows the scheme:  *)
+(* a plain URL, a string that has the right prefix but is NOT a URL        *)
+(* (control characters, unbalanced IPv6 bracket, non-numeric port, bad     *)
+(* percent-escape, blank in the host), a string net/url is lenient about,  *)
+(* or a well-formed but unusual URL.  net/url.Parse is modelled stage by   *)
+(* stage (UrlParse).  Named deviation                                      *)
+(*   PrefixCheckOnly   the location is judged by the text before its first *)
+(*                     colon only (no URL parse)                           *)
+(* is FALSE in the registered configurations and TRUE in                   *)
+(* HtmlForms_C14dev.cfg, where TLC must refute RejectsHostile.             *)
 (***************************************************************************)
 EXTENDS Integers, Sequences, FiniteSets, TLC, Json
 
 CONSTANTS MaxLen,     \* bound on the length of hostile class-strings (2 quick / 3 thorough)
           Parts,      \* subset of {"form", "meta"}
-          Escaper     \* "html" (html/template, the implementation) | "text" (text/template: the mutant, for demonstration)
+          Escaper,    \* "html" (html/template, the implementation) | "text" (text/template: the mutant, for demonstration)
+          PrefixCheckOnly   \* named deviation of part "meta" (FALSE: the implementation)
 
 (***************************************************************************)
 (*                          Part "form": alphabet                          *)
@@ -199,7 +212,25 @@ Tokenize(s) == Tok(s, 1, <<>>, <<>>)
 Known    == {"post", "redirect", "artifact", "soap", "soap1"}   \* HTTP-POST, HTTP-Redirect, HTTP-Artifact, SOAP, SAML1 SOAP-binding
 Bindings == Known \cup {"unknown"}
 Schemes  == {"http", "https", "httpMixed", "javascript", "data", "vbscript", "jsMixed",
-             "leadSpace", "leadCtl", "schemeRel", "relPath", "unparsable", "empty"}
+             "leadSpace", "leadCtl", "schemeRel", "relPath", "colonFirst", "empty"}
+HttpSchemes == {"http", "https", "httpMixed"}
+\* shapes of what follows an http-ish scheme (the value after XML decoding)
+CtlShapes  == {"ctlCR", "ctlLF", "ctlCRLF", "ctlTAB", "ctlDEL", "ctlC0",   \* a control character in front of the fragment (CR LF + header-looking
+               "ctlFrag"}                                                 \* text; C0 others: XML cannot carry them, the document is ill-formed),
+                                                                         \* or in the fragment
+HostShapes == {"badBracket", "badPort", "badPctHost", "spaceHost"}        \* https://[::1/x  https://h:port/x  https://%zz.h/x  https://h h/x
+TailShapes == {"badPctPath", "badPctFrag"}                                \* https://h/%zz  https://h/x#%zz
+NotUrlShapes == CtlShapes \cup HostShapes \cup TailShapes
+\* strings net/url takes although a strict reader would not (or that are URLs of the generic syntax only)
+LaxShapes  == {"emptyHost", "schemeOnly", "opaque", "spacePath", "badPctQuery", "idnU", "rawUnicode", "rawDelims"}
+\* well-formed, unusual
+FineShapes == {"userinfo", "ipv6", "ipv4", "port", "pctPath", "query", "fragment", "idnA", "long", "noPath", "subDelims"}
+Shapes == {"plain"} \cup NotUrlShapes \cup LaxShapes \cup FineShapes
+V(sc, sh) == [scheme |-> sc, shape |-> sh]
+Benign  == V("https", "plain")
+Blank   == V("blank", "plain")           \* the empty string checkEndpointLocation stores for an unknown binding
+AbsentV == V("absent", "plain")          \* no attribute at all
+EmptyV  == V("empty", "plain")           \* attribute present, value ""
 El(d, e, kind) == [desc |-> d, elem |-> e, kind |-> kind]       \* kind: "E" Endpoint | "IE" IndexedEndpoint
 Elements ==
   { El("IDPSSODescriptor", "SingleSignOnService", "E"),       El("IDPSSODescriptor", "SingleLogoutService", "E"),
@@ -213,21 +244,47 @@ Elements ==
     El("AttributeAuthorityDescriptor", "AssertionIDRequestService", "E") }
 MetaAttrs == {"Location", "ResponseLocation"}
 
-\* net/url.Parse on a representative of the class: does it fail, and which (lower-cased) scheme
-ParseFails(v) == v \in {"leadSpace", "leadCtl", "unparsable"}
-SchemeOf(v) == CASE v \in {"http", "httpMixed"} -> "http"
-                 [] v \in {"https", "benign"}   -> "https"
-                 [] v \in {"javascript", "jsMixed"} -> "javascript"
-                 [] v = "data" -> "data"
-                 [] v = "vbscript" -> "vbscript"
-                 [] OTHER -> ""
+(* net/url.Parse on a representative of the class, stage by stage (url.go parse / getScheme /           *)
+(* parseAuthority / parseHost / setPath / setFragment).  Result: does it fail, and the scheme it reads. *)
+UOk(sch) == [fails |-> FALSE, scheme |-> sch]
+UFail    == [fails |-> TRUE,  scheme |-> ""]
+\* the text before the first colon, lower-cased ("" when there is no colon or it is not a scheme name)
+NameBeforeColon(v) == CASE v.scheme \in {"http", "httpMixed"} -> "http"
+                        [] v.scheme = "https" -> "https"
+                        [] v.scheme \in {"javascript", "jsMixed"} -> "javascript"
+                        [] v.scheme = "data" -> "data"
+                        [] v.scheme = "vbscript" -> "vbscript"
+                        [] OTHER -> ""                           \* blanks / a control character in front, no colon, colon first
+\* The REQUIRED reading is modelled: a control character anywhere makes the value unparsable.  Named deviation of
+\* the pinned tree, found by the harness and not modelled as behaviour:
+\*   FragmentNotScanned   url.Parse cuts the fragment off before it looks for control characters and setFragment
+\*                        only unescapes: a CR / LF / TAB / DEL after the "#" passes (shape "ctlFrag")
+UrlParse(v) ==
+  \* stringContainsCTLByte: any byte below 0x20 or 0x7f
+  IF v.shape \in CtlShapes \/ v.scheme = "leadCtl" THEN UFail
+  \* getScheme: letters (digits + - . after the first) up to a colon; a colon in front is "missing protocol scheme";
+  \* any other first character means "no scheme", and then a colon in the first path segment is an error
+  ELSE IF v.scheme = "colonFirst" THEN UFail
+  ELSE IF v.scheme = "leadSpace" THEN UFail                      \* " javascript:..." - first path segment contains a colon
+  ELSE IF v.scheme \in {"schemeRel", "relPath", "empty"} THEN UOk("")
+  \* a scheme and no "//": opaque, taken as it is
+  ELSE IF v.shape \in {"opaque", "schemeOnly"} \/ v.scheme \notin HttpSchemes THEN UOk(NameBeforeColon(v))
+  \* parseAuthority / parseHost: brackets, port, escapes and characters of the host
+  ELSE IF v.shape \in HostShapes THEN UFail
+  \* setPath / setFragment: unescape (the query is not looked at)
+  ELSE IF v.shape \in TailShapes THEN UFail
+  ELSE UOk(NameBeforeColon(v))
+
 \* metadata.go checkEndpointLocation
 CheckEL(b, v) ==
   IF b \in Known
-    THEN IF ParseFails(v) THEN [err |-> TRUE, v |-> "blank"]
-         ELSE IF SchemeOf(v) \notin {"http", "https"} THEN [err |-> TRUE, v |-> "blank"]
-         ELSE [err |-> FALSE, v |-> v]
-    ELSE [err |-> FALSE, v |-> "blank"]
+    THEN IF PrefixCheckOnly
+           THEN (IF NameBeforeColon(v) \in {"http", "https"} THEN [err |-> FALSE, v |-> v] ELSE [err |-> TRUE, v |-> Blank])
+         ELSE LET u == UrlParse(v) IN
+              IF u.fails THEN [err |-> TRUE, v |-> Blank]
+              ELSE IF u.scheme \notin {"http", "https"} THEN [err |-> TRUE, v |-> Blank]
+              ELSE [err |-> FALSE, v |-> v]
+    ELSE [err |-> FALSE, v |-> Blank]
 
 (***************************************************************************)
 (*                              state machine                              *)
@@ -240,27 +297,29 @@ VARIABLES c,        \* the abstract case
           loc, rloc, result    \* meta: the two attribute values and the parse verdict
 vars == <<c, pc, env, out, dom, loc, rloc, result>>
 
-Benign == <<"plain">>
+BenignStr == <<"plain">>
 FormCases ==
   { [part |-> "form", form |-> f, slot |-> sl, base |-> b, s |-> s] :
       f \in Forms, sl \in AllSlots, b \in BOOLEAN, s \in Strings }
 FormCaseOK(x) == x.slot \in SlotsOf(x.form) /\ (x.base => x.slot = "URL")
+\* location classes: every scheme class as a plain value, the http-ish ones with every other shape as well
+LocClasses == { V(sc, "plain") : sc \in Schemes } \cup { V(sc, sh) : sc \in HttpSchemes, sh \in Shapes \ {"plain"} }
 MetaCases ==
-  { [part |-> "meta", el |-> e, attr |-> a, binding |-> b, scheme |-> sc] :
-      e \in Elements, a \in MetaAttrs, b \in Bindings, sc \in Schemes }
+  { [part |-> "meta", el |-> e, attr |-> a, binding |-> b, scheme |-> lc.scheme, shape |-> lc.shape] :
+      e \in Elements, a \in MetaAttrs, b \in Bindings, lc \in LocClasses }
 
 EnvOf(x) == [sl \in AllSlots |-> IF sl = x.slot THEN (IF x.base THEN <<"base">> \o x.s ELSE x.s)
-                                 ELSE IF sl = "URL" THEN <<"base">> ELSE Benign]
+                                 ELSE IF sl = "URL" THEN <<"base">> ELSE BenignStr]
 
 InitForm == /\ "form" \in Parts
             /\ c \in {x \in FormCases : FormCaseOK(x)}
             /\ env = EnvOf(c) /\ pc = "render" /\ out = <<>> /\ dom = <<>>
-            /\ loc = "n/a" /\ rloc = "n/a" /\ result = "n/a"
+            /\ loc = AbsentV /\ rloc = AbsentV /\ result = "n/a"
 InitMeta == /\ "meta" \in Parts
             /\ c \in MetaCases
             /\ pc = "checkLoc" /\ env = <<>> /\ out = <<>> /\ dom = <<>>
-            /\ loc  = (IF c.attr = "Location" THEN c.scheme ELSE "benign")          \* aux decoded by encoding/xml
-            /\ rloc = (IF c.attr = "ResponseLocation" THEN c.scheme ELSE "absent")
+            /\ loc  = (IF c.attr = "Location" THEN V(c.scheme, c.shape) ELSE Benign)          \* aux decoded by encoding/xml
+            /\ rloc = (IF c.attr = "ResponseLocation" THEN V(c.scheme, c.shape) ELSE AbsentV)
             /\ result = "none"
 Init == InitForm \/ InitMeta
 
@@ -283,12 +342,12 @@ CheckLocation ==
 \* a blanked result is stored as nil)
 CheckResponseLocation ==
   /\ pc = "checkRLoc"
-  /\ LET skip == IF c.el.kind = "E" THEN rloc \in {"absent", "empty"} ELSE rloc = "absent"
+  /\ LET skip == IF c.el.kind = "E" THEN rloc \in {AbsentV, EmptyV} ELSE rloc = AbsentV
          r    == CheckEL(c.binding, rloc) IN
        IF skip THEN pc' = "done" /\ result' = "ok" /\ UNCHANGED rloc
        ELSE IF r.err THEN pc' = "done" /\ result' = "error" /\ UNCHANGED rloc
        ELSE /\ pc' = "done" /\ result' = "ok"
-            /\ rloc' = (IF r.v = "blank" /\ c.el.kind = "IE" THEN "absent" ELSE r.v)
+            /\ rloc' = (IF r.v = Blank /\ c.el.kind = "IE" THEN AbsentV ELSE r.v)
   /\ UNCHANGED <<c, env, out, dom, loc>>
 
 Next == DoRender \/ DoTokenize \/ CheckLocation \/ CheckResponseLocation
@@ -343,25 +402,43 @@ FormClass == IF c.slot # "URL" THEN "MustAccept"
              ELSE "MustAccept"                                       \* the intended action, exactly
 
 \* --- metadata ----------------------------------------------------------------
-Blankish == {"blank", "absent", "empty"}
-SafeValue(v) == v \in Blankish \/ (~ParseFails(v) /\ SchemeOf(v) \in {"http", "https"})
+\* "for the standard bindings, http or https URLs or else parsing fails; for unknown bindings blanked".
+\* What a class of strings IS, from the definitions of a URL (RFC 3986 generic syntax, RFC 9110 http / https
+\* URIs, the WHATWG URL standard) - not from what net/url does:
+\*   NotUrl    not a URL under any of them: a control character anywhere, an IPv6 literal without its bracket,
+\*             a port that is not a number, a percent sign without two hex digits, a blank in the host
+\*   Lax       the definitions disagree or only the generic syntax admits it (no host, no "//", blank or raw
+\*             non-ASCII / delimiter characters in the path, a malformed escape in the query, a U-label host)
+\*   WellFormed  an http(s) URL under all of them, however unusual (user name, IP literals, port, escapes,
+\*             query, fragment, A-label host, long, no path, sub-delimiters)
+NotUrl(v)     == v.shape \in {"ctlCR", "ctlLF", "ctlCRLF", "ctlTAB", "ctlDEL", "ctlC0", "ctlFrag",
+                              "badBracket", "badPort", "badPctHost", "spaceHost", "badPctPath", "badPctFrag"}
+Lax(v)        == v.shape \in {"emptyHost", "schemeOnly", "opaque", "spacePath", "badPctQuery", "idnU", "rawUnicode", "rawDelims"}
+WellFormed(v) == v.shape \in {"plain", "userinfo", "ipv6", "ipv4", "port", "pctPath", "query", "fragment", "idnA", "long",
+                              "noPath", "subDelims"}
+HttpPrefix(v) == v.scheme \in {"http", "https", "httpMixed"}
+Blankish == {Blank, AbsentV, EmptyV}
+\* a value that may be left in a parsed document: nothing, or an http(s)-schemed string that is not NotUrl
+\* (in particular free of CR / LF / control characters)
+SafeValue(v) == v \in Blankish \/ (HttpPrefix(v) /\ ~NotUrl(v))
 Target == IF c.attr = "Location" THEN loc ELSE rloc
+Case == V(c.scheme, c.shape)
 
 MetaClass ==
-  IF c.binding \in Known
-    THEN IF c.scheme \in {"http", "https"} THEN "MustAccept"
-         ELSE IF c.scheme \in {"httpMixed", "unparsable", "empty"} THEN "DontCare"   \* http-schemed oddities / nothing to protect
-         ELSE "MustReject"
-    ELSE IF c.scheme \in {"http", "https", "httpMixed", "unparsable", "empty"} THEN "DontCare"
-         ELSE "MustReject"
+  IF c.scheme = "empty" THEN "DontCare"                                   \* nothing to protect
+  ELSE IF ~HttpPrefix(Case) THEN "MustReject"                             \* script schemes, blanks / controls in front, no scheme
+  ELSE IF NotUrl(Case) THEN "MustReject"                                  \* the right prefix, but not a URL
+  ELSE IF c.binding \notin Known THEN "DontCare"                          \* blanked, says the statement; harmless if kept
+  ELSE IF Lax(Case) \/ c.scheme = "httpMixed" THEN "DontCare"             \* oddities the statement does not rule on
+  ELSE "MustAccept"                                                       \* a well-formed http(s) URL on a standard binding
 Required == CASE MetaClass = "MustReject" -> "error-or-blank"
               [] MetaClass = "MustAccept" -> "preserved"
               [] OTHER -> "safe"
 
 SurvivorsSafe  == Done /\ IsMeta /\ result = "ok" => SafeValue(loc) /\ SafeValue(rloc)
 RejectsHostile == Done /\ IsMeta /\ MetaClass = "MustReject" => result = "error" \/ Target \in Blankish
-AcceptsGood    == Done /\ IsMeta /\ MetaClass = "MustAccept" => result = "ok" /\ Target = c.scheme
-UnknownBlanked == Done /\ IsMeta /\ c.binding \notin Known => result = "ok" /\ loc = "blank" /\ rloc \in Blankish
+AcceptsGood    == Done /\ IsMeta /\ MetaClass = "MustAccept" => result = "ok" /\ Target = Case
+UnknownBlanked == Done /\ IsMeta /\ c.binding \notin Known => result = "ok" /\ loc = Blank /\ rloc \in Blankish
 
 (***************************** vector emission *****************************)
 ASSUME \A f \in Forms : PrintT(<<"SKEL", ToJson([form |-> f, nodes |-> Template(f)])>>)
@@ -369,7 +446,7 @@ ASSUME \A f \in Forms : PrintT(<<"SKEL", ToJson([form |-> f, nodes |-> Template(
 FormVec == [part |-> "form", form |-> c.form, slot |-> c.slot, base |-> c.base, s |-> c.s, class |-> FormClass,
             pred |-> [action |-> IF Unsafe(env["URL"]) THEN "filter" ELSE "input", ok |-> StructureOK]]
 MetaVec == [part |-> "meta", desc |-> c.el.desc, elem |-> c.el.elem, kind |-> c.el.kind, attr |-> c.attr,
-            binding |-> c.binding, scheme |-> c.scheme, class |-> MetaClass, required |-> Required,
+            binding |-> c.binding, scheme |-> c.scheme, shape |-> c.shape, class |-> MetaClass, required |-> Required,
             pred |-> [result |-> result, value |-> IF result = "error" THEN "n/a" ELSE IF Target \in Blankish THEN "blank" ELSE "kept"]]
 Emit == Done => PrintT(<<"VEC", ToJson(IF IsForm THEN FormVec ELSE MetaVec)>>)
 =============================================================================
